@@ -8,6 +8,7 @@ BY_FUNC = {}           # (module, func) -> Contract
 CLASSES = {}           # class model name -> ClassModel
 SPECFNS = {}           # name -> python callable(exec, state, args:[V]) -> V
 LEMMAS = []
+SPEC_TYPES = {}         # names usable as quantifier types in spec expressions
 
 
 class ClassModel:
@@ -172,15 +173,29 @@ class Contract:
         return fn
 
 
-def contract(qual, prop, mode="int"):
+class Sink:
+    """Parameter type for a callback that only consumes values (e.g. `write` of a varint
+    encoder): calls append their argument to the ghost list `$<ghost>`."""
+    def __init__(self, elem, ghost="out"):
+        self.elem = elem
+        self.ghost = "G_" + ghost
+
+
+def contract(qual, prop, mode="int", variant=None):
+    """variant: a second contract on the same function (e.g. the memory-safety view of a
+    decoder); only the primary contract is used at call sites."""
     def deco(fn):
         c = Contract(qual, prop, mode)
+        c.variant = variant
         fn(c)
-        REGISTRY[qual] = c
-        mod, f = qual.split(":")
-        if c.self_cls and "." in f:
-            BY_METHOD[(c.self_cls, f.split(".")[-1])] = c
-        BY_FUNC[(mod, f)] = c
+        key = qual if variant is None else "%s#%s" % (qual, variant)
+        c.key = key
+        REGISTRY[key] = c
+        if variant is None:
+            mod, f = qual.split(":")
+            if c.self_cls and "." in f:
+                BY_METHOD[(c.self_cls, f.split(".")[-1])] = c
+            BY_FUNC[(mod, f)] = c
         return c
     return deco
 
